@@ -79,7 +79,7 @@ def main(tier):
             m["ast"], m["lines"] = pygen.layout(m["ast"], deco_rng=rng, trivia=tv)
             m["trivia_used"] = tv.used
             n_rt += 1
-    tmods = pygen.trivia_cases(rng, sample=None if thorough else 0.34)
+    tmods = pygen.trivia_cases(rng, sample=None if thorough else 0.25)
     if not thorough:
         # the Coq model of the registry does not see trivia (the statement tree is the same with and without it): in the quick tier
         # the model tie is evaluated on the random modules and on a few of the trivia modules only; the decision against the
@@ -253,7 +253,7 @@ def main(tier):
                 "of a block (= before the next elif/else/except/except*/finally/case clause) and between decorators and the header, for "
                 "every clause kind (if elif else for while loop-else try except except* try-else finally with match case def class, async "
                 "forms) - every (statement kind, clause, slot, kind) at exactly one position with a def and a class in EVERY clause "
-                "(quick: a seed-dependent third of them; thorough: all), every kind at all positions at once, and at random in the "
+                "(quick: a seed-dependent quarter of them; thorough: all), every kind at all positions at once, and at random in the "
                 "decorated modules; "
                 "one evaluation = one def or class statement checked for presence exactly once with dotted name, start and end line; "
                 "distinct_nontrivial = nested definitions",
